@@ -395,6 +395,8 @@ META = (META[0] + " DISTGUARD (a search loop guarded by `last - first >= X` that
 
 META = (META[0] + ' FIRSTREAD (shared with C08: the first character a search reads lies inside the view, an empty view is never read).', META[1])
 
+META = (META[0] + ' CONDORDER (in a counted routine the count test precedes the dereference it guards inside every && condition).', META[1])
+
 
 def run(chk, tier):
     db = D.load("plain")
@@ -462,6 +464,9 @@ def run(chk, tier):
     _IT.index_loop_area(chk, cdb, ['_string_view/', '_string/basic_inplace_string', '_bitset/', '_span/', '_array/'])      # IDXLOOP
     _IT.counted_buffer_area(chk, cdb, ['_string/char_traits', '_cstring/', '_cwchar/', '_strings/cstr', '_algorithm/', '_memory/'])      # PTRCOUNT
     _IT.count_subscript_control(chk, D)
+    from ..rules import extra8 as _X8c
+    if _X8c.cond_order_area(chk, cdb, ['_string/char_traits', '_cstring/', '_cwchar/', '_strings/cstr', '_algorithm/', '_memory/']) < 1:      # CONDORDER
+        chk.unknown_instance('CONDORDER', 'counted C-string routines', 'no condition that combines a count test with a dereference found')
     # ---- RSTEP: downward scans compare the cursor with its lower bound before every step
     from ..rules import extra8 as _X8
     _X8.dist_guard_area(chk, cdb, ['_algorithm/', '_numeric/', '_string_view/', '_strings/'])      # DISTGUARD
